@@ -294,5 +294,13 @@ def c11(tier, seed):
         "than the roll window (8 days)",
     ]
     calendar_check.lead_check(rep, tier)
+    # two environments trading the chain in one process, their calls interleaved in every order (EnvPair.tla): each resolves
+    # the chain by its OWN simulation time, whatever time the other one left on the shared clock
+    from . import pair_check
+    for m in pair_check.pair_models(tier):
+        ctx = dict(m["ctx"])
+        ctx["maxcalls"] = 5 if tier == "quick" else 6
+        explore.explore_and_replay(rep, "pair-" + m["name"], m["module"], m["cfg"], ("harness.pair_check", "replay_chunk"), ctx,
+                                   {"pair_roll"}, m["invariants"], m["properties"], chunk=60, workers=8, timeout=3600)
     run_models(rep, c11_models(tier), clauses_of("C11"))
     return rep.finish()
